@@ -422,3 +422,58 @@ func itoaF(n int) string {
 	}
 	return s
 }
+
+// the byte pool under every reply buffer: GetBuf / ReleaseBuf are the free list's own Get / Release
+func init() {
+	factFuncs = append(factFuncs, func(ex *factExtractor) {
+		const name = "c01PoolGetIsFreeListGet"
+		note := "pkg/pool/allocator.go: GetBuf and ReleaseBuf are the Get and Release of one bytesPool.NewPool(n) value, and the file declares nothing else (no function, no further variable: no place of its own where a buffer could wait between a Release and a Get)"
+		f := ex.file("pkg/pool/allocator.go")
+		if f == nil {
+			ex.setBool(name, false, false, note)
+			return
+		}
+		vals := map[string]string{}
+		others := 0
+		for _, d := range f.Decls {
+			gd, ok := d.(*ast.GenDecl)
+			if !ok {
+				others++ // a function
+				continue
+			}
+			switch gd.Tok.String() {
+			case "import":
+			case "var":
+				for _, s := range gd.Specs {
+					vs, ok := s.(*ast.ValueSpec)
+					if !ok || vs.Type != nil || len(vs.Names) != len(vs.Values) {
+						others++
+						continue
+					}
+					for i, n := range vs.Names {
+						vals[n.Name] = ex.str(vs.Values[i])
+					}
+				}
+			default:
+				others++ // const / type
+			}
+		}
+		okPool := false
+		if v, has := vals["_pool"]; has && strings.HasPrefix(v, "bytesPool.NewPool(") && strings.HasSuffix(v, ")") {
+			arg := strings.TrimSuffix(strings.TrimPrefix(v, "bytesPool.NewPool("), ")")
+			okPool = arg != ""
+			for _, ch := range arg {
+				if ch < '0' || ch > '9' {
+					okPool = false
+				}
+			}
+		}
+		imp := false
+		for _, im := range f.Imports {
+			if im.Name != nil && im.Name.Name == "bytesPool" && im.Path.Value == `"github.com/IrineSistiana/go-bytes-pool"` {
+				imp = true
+			}
+		}
+		ex.setBool(name, imp && okPool && others == 0 && len(vals) == 3 && vals["GetBuf"] == "_pool.Get" && vals["ReleaseBuf"] == "_pool.Release", true, note)
+	})
+}
